@@ -13,6 +13,8 @@ import Matreex.Model.Iter
 import Driver.IterSys
 import Matreex.Model.Convert
 import Matreex.Gen.Macros
+import Matreex.Model.Eq
+import Driver.Fmt
 
 namespace Driver
 open Matreex
@@ -153,6 +155,27 @@ def stepHist (w : World) (ws : List String) : Option (World × String) :=
     -- `Clone::clone` of a token appends a prime to its payload (so clones are visible)
     let (w', s) := inplace w r (fun m => m.overwrite (w.cloneFn) src)
     pure (w', s ++ " | " ++ stStr src)
+  | ["clone", dst, a] => do
+    let dst ← dst.toNat?; let a ← a.toNat?
+    let m ← w.get a
+    let m' := { m with data := (m.data.toList.map w.cloneFn).toArray }
+    pure (w.set dst (some m'), "ok | " ++ stStr m')
+  | ["eq", a, b] => do
+    let a ← a.toNat?; let b ← b.toNat?
+    let ma ← w.get a; let mb ← w.get b
+    pure (w, mStr (fun (v : Bool) => toString v) (ma.beq (· == ·) mb))
+  | ["display", r] => do
+    let r ← r.toNat?
+    let m ← w.get r
+    match Fmt.display String.toList m with
+    | .error e => pure (w, faultStr e)
+    | .ok s => pure (w, "ok " ++ escapeOut (String.ofList s))
+  | ["lview", r] => do
+    -- the logical view: extents and rows of elements (independent of the storage order)
+    let r ← r.toNat?
+    let m ← w.get r
+    let rows := (List.range m.nrows).map fun i => (List.range m.ncols).map fun j => (m.at? i j).getD "?"
+    pure (w, s!"lv {m.nrows}x{m.ncols} " ++ showList (fun (row : List String) => ";".intercalate row) rows)
   | ["rows", dst, kind, lens] => do
     -- conversions from rows; payloads 1, 2, … are dealt row by row; borrowed inputs are cloned
     let dst ← dst.toNat?
